@@ -174,7 +174,9 @@ def rnd_options(rng, heavy=False):
                                      # aliases the codec registry resolves (the ECI number follows the codec, not the spelling)
                                      'latin-1', 'ISO8859_1', 'L1', 'sjis', 'Shift_JIS', 'UTF8', 'u8', 'cp932', 'ms932',
                                      'iso-8859-2', 'ISO_8859-7', 'windows-1251', 'us-ascii', '646', 'UTF_16_BE', 'euckr', 'gb2312',
-                                     'ISO-8859-1', 'Iso-8859-1', 'LATIN1', 'Latin-1', 'ISO-8859-15', 'Shift-JIS', 'CP1252'])
+                                     'ISO-8859-1', 'Iso-8859-1', 'LATIN1', 'Latin-1', 'ISO-8859-15', 'Shift-JIS', 'CP1252',
+                                     # codecs Python knows and the ECI table does not (with eci=True: refused, there is no designator)
+                                     'koi8-r', 'cp850', 'mac-roman', 'utf-16-le', 'tis-620', 'euc-jp'])
     if rng.random() < 0.25:
         kw['eci'] = rng.choice([True, False])
     if rng.random() < 0.3:
